@@ -10,7 +10,7 @@ SPEC = dict(
          "non-redis error, error texts for the classifiers (every keyword x 0..3 fields, IPv4/IPv6 address forms) and fixIPv6HostPort; "
          "all 38 accessors run on every tree; the corpus holds the 9 witnesses of the repaired panics; a tree case is non-trivial "
          "when the tree has more than one node; distinct by full input",
-    trusted=["strconv.ParseFloat, float64(int64), strconv.ParseInt(s,0,64), json.Unmarshal: parameters of the model, the observer passes "
+    trusted=["strconv.ParseFloat, float64(int64), json.Unmarshal: parameters of the model, the observer passes "
              "their results on every string / integer of the tree (tables checked for coverage, fail closed); theorems hold for every behaviour",
              "strconv.ParseInt/ParseUint base 10, strings.Split/HasPrefix/TrimPrefix, net.JoinHostPort are modelled concretely and exercised by the tie",
              "unsafe string/slice views of RedisMessage: modelled as immutable values"],
